@@ -72,12 +72,12 @@ func init() {
 		Trusted:     []string{"go/types, go/cfg (x/tools v0.50.0)", "Storage implementation"},
 		Level:       "Sound static check (all paths, both routers) that every success sink of userinfo / introspection / revocation / logout is dominated by token resolution and the storage's acceptance, with the caller id bound. Whether a token is live is decided by the storage at run time and is outside.",
 		Note:        "Trusted: go/types+go/cfg; Storage contract (liveness).",
-		Technique:   "static analysis: assume/guarantee must-facts dataflow over go/cfg; who-may-write table for IntrospectionResponse.Active",
+		Technique:   "static analysis: assume/guarantee must-facts dataflow over go/cfg; who-may-write table for IntrospectionResponse.Active; flow-insensitive argument-role (value-source) analysis of the revocation sinks",
 		Rules:       []string{"E1"},
 		Run: func(c *Ctx) {
 			RunE1(c, "C08", append(append([]Ob{}, obs...), sharedObs["C08"]...))
 			// argument roles of the revocation sinks (E9): token / token id, subject and client id are all strings
-			tok := []string{"ParseTokenRevocationRequest#0", "GetRefreshTokenInfo#1", "getTokenIDAndSubjectForRevocation#0"}
+			tok := []string{"ParseTokenRevocationRequest#0", "GetRefreshTokenInfo#1", "getTokenIDAndSubjectForRevocation#0", "zero"} // zero: the unused results of a helper's "not found" return
 			sub := []string{"zero", "GetRefreshTokenInfo#0", "getTokenIDAndSubjectForRevocation#1"}
 			cid := []string{"ParseTokenRevocationRequest#2"}
 			RunArgSources(c, "E9.revoke.provider.roles", "op.Revoke", "RevokeToken", 1, tok, "the storage revokes the presented token or the id it resolved to")
@@ -86,7 +86,7 @@ func init() {
 			RunArgSources(c, "E9.revoke.provider.roles", "op.Revoke", "GetRefreshTokenInfo", 1, cid, "refresh tokens are looked up for the authenticated caller")
 			RunArgSources(c, "E9.revoke.provider.roles", "op.Revoke", "GetRefreshTokenInfo", 2, tok, "the presented token is looked up")
 			RunArgSources(c, "E9.revoke.provider.roles", "op.Revoke", "getTokenIDAndSubjectForRevocation", 2, tok, "the presented token is resolved")
-			ltok := []string{"param:r.Data.Token", "GetRefreshTokenInfo#1", "getTokenIDAndSubjectForRevocation#0"}
+			ltok := []string{"param:r.Data.Token", "GetRefreshTokenInfo#1", "getTokenIDAndSubjectForRevocation#0", "zero"}
 			lcid := []string{"r.Client.GetID#0"}
 			RunArgSources(c, "E9.revoke.legacy-server.roles", "op.(*LegacyServer).Revocation", "RevokeToken", 1, ltok, "sibling of op.Revoke")
 			RunArgSources(c, "E9.revoke.legacy-server.roles", "op.(*LegacyServer).Revocation", "RevokeToken", 2, sub, "sibling of op.Revoke")
